@@ -240,6 +240,13 @@ impl C04 {
                             d[44..76].copy_from_slice(attacker.as_ref());
                             d[76..108].copy_from_slice(attacker.as_ref());
                             rivals.push(("adaptive_fee_tier", ix::pda_fee_tier(&t.config, idx2), Account::new(a.lamports, d, a.owner)));
+                            // ... and the tier with the SAME index under a config of the attacker's own
+                            let rival_cfg = scratch_key(salt, 4013);
+                            let mut d2 = (*a.data).clone();
+                            d2[8..40].copy_from_slice(rival_cfg.as_ref());
+                            d2[44..76].copy_from_slice(attacker.as_ref());
+                            d2[76..108].copy_from_slice(attacker.as_ref());
+                            rivals.push(("adaptive_fee_tier", ix::pda_fee_tier(&rival_cfg, t.fee_tier_index), Account::new(a.lamports, d2, a.owner)));
                         }
                     }
                 }
